@@ -649,6 +649,36 @@ def hoist_loop_temporaries(ft, ads):
         ads.append({"rule": "D17", "what": f"{n} loop(s) over `call(..).iter()`: the temporary is bound by an explicit let around the loop"})
 
 
+def eta_expand_constructors(ft, ads):
+    """D20: a datatype constructor used as a function value — `.map(Path::Variant)` — is unsupported by Verus; it is
+    eta-expanded to `.map(|d20_x| Path::Variant(d20_x))` (same function)."""
+    n = 0
+    while True:
+        sig = ft.sig
+        hit = None
+        for k in range(len(sig) - 3):
+            if sig[k].text == "." and sig[k + 1].text in ("map", "map_err", "and_then") and sig[k + 2].text == "(":
+                c = match_close(sig, k + 2)
+                inner = sig[k + 3:c]
+                if not inner:
+                    continue
+                texts = [u.text for u in inner]
+                # a pure path: ident (:: ident)*
+                ok = all((u.kind == "ident") if i % 3 == 0 else (u.text == ":") for i, u in enumerate(inner)) and len(inner) % 3 == 1
+                if ok and inner[-1].text[:1].isupper() and len(inner) >= 4:
+                    hit = (inner[0].s, inner[-1].e)
+                    break
+        if hit is None:
+            break
+        path = ft.text[hit[0]:hit[1]]
+        ft.edits.append((hit[0], hit[1] - hit[0], f"|d20_x| {path}(d20_x)"))
+        ft.apply_edits()
+        ft.relex()
+        n += 1
+    if n:
+        ads.append({"rule": "D20", "what": f"{n} constructor(s) used as function value eta-expanded to a closure"})
+
+
 def adapt_function(text, where, subs, report):
     ft = FnText(text, where)
     ft.relex()
@@ -657,6 +687,7 @@ def adapt_function(text, where, subs, report):
     split_or_guard_arms(ft, ads)
     desugar_enumerate_loops(ft, ads)
     hoist_loop_temporaries(ft, ads)
+    eta_expand_constructors(ft, ads)
     if 'fn __fragment' not in text:
         rewrite_mut_self(ft, ads)
     # nested fn items with their own contracts (D3 applied recursively)
